@@ -214,10 +214,14 @@ def r4(facts):
             raise build.AnalysisBroken('C02.R4: loop condition block not found for line %s' % whole.get('ln'))
         bid = [c for c in cands if all(cfg.block_dominates(c, o) for o in cands)][0]
         halves = False
-        for x in walk(whole.get('body')):
+        step_part = [whole.get('body'), whole.get('inc')]
+        for x in walk(step_part):
             ap = assign_parts(x)
             if ap and strip(ap[0]).get('id') == v['id'] and ap[2] == '/=':
                 halves = True
+            if ap and strip(ap[0]).get('id') == v['id'] and ap[2] == '=' and strip(ap[1]).get('k') == 'BinaryOperator' and strip(ap[1]).get('op') in ('/', '*') \
+                    and strip(strip(ap[1])['l']).get('id') == v['id']:
+                halves = True       # v = v / 2.0, v = v * 0.5
         if not halves:
             continue
         # (a) integer counter bound in the condition: conjunct `n < C` with n incremented by a positive constant in the body
@@ -226,9 +230,12 @@ def r4(facts):
             n = cmp_norm(g) if g[0] == 'cmp' else None
             if n and n[0] in ('<', '<=') and strip(n[1]).get('t', {}).get('w') and not strip(n[1]).get('t', {}).get('f'):
                 nid = strip(n[1]).get('id')
-                for x in walk(whole.get('body')):
+                for x in walk(step_part):
                     ap = assign_parts(x)
                     if ap and strip(ap[0]).get('id') == nid and ap[2] == '+=' and (const_of(ap[1]) or 0) > 0:
+                        counter = True
+                    if ap and strip(ap[0]).get('id') == nid and ap[2] == '=' and strip(ap[1]).get('k') == 'BinaryOperator' and strip(ap[1]).get('op') == '+' \
+                            and strip(strip(ap[1])['l']).get('id') == nid and (const_of(strip(ap[1])['r']) or 0) > 0:
                         counter = True
                     if is_incdec(x) and x['op'] == '++' and strip(x['e']).get('id') == nid:
                         counter = True
@@ -260,7 +267,16 @@ def bounded_at(fn, header, vid):
                     tgt, rhs, op = ap
                     r = strip(rhs)
                     if op == '=':
-                        fact = ('fc' in rhs or 'c' in rhs) and not rhs.get('finf')
+                        def finite(e, cur):
+                            e = strip(e)
+                            if 'fc' in e or 'c' in e:
+                                return not e.get('finf')
+                            if e.get('k') == 'DeclRefExpr':
+                                return cur if e.get('id') == vid else _const_local(fn, e)
+                            if e.get('k') == 'BinaryOperator' and e.get('op') in ('*', '/', '+', '-'):
+                                return finite(e['l'], cur) and finite(e['r'], cur)      # same precision as the compound forms below
+                            return False
+                        fact = finite(rhs, fact)
                     elif op in ('*=', '/=', '+=', '-='):
                         fact = fact and (('fc' in rhs or 'c' in rhs) and not rhs.get('finf') or (r.get('k') == 'DeclRefExpr' and _const_local(fn, r)))
                     else:
